@@ -295,8 +295,14 @@ def _stop_and_wait(ctx, R, roles, T):
                     if isinstance(t, ast.Compare) and len(t.ops) == 1 and isinstance(t.ops[0], (ast.Eq, ast.NotEq)):
                         a, b = T.term(fl, tn, t.left), T.term(fl, tn, t.comparators[0])
                         for x, y in ((a, b), (b, a)):
-                            if x == ("proj", rt, 0) and y == ("c", b"OKAY"):
-                                ok_edges.append((tn, "true" if isinstance(t.ops[0], ast.Eq) else "false"))
+                            if x == ("proj", rt, 0) and y[0] == "c" and y[1] in set(exp):
+                                # value set of the awaited command on each edge of the test: {K} / expected - {K}
+                                eq_lab = "true" if isinstance(t.ops[0], ast.Eq) else "false"
+                                ne_lab = "false" if eq_lab == "true" else "true"
+                                if {y[1]} == {b"OKAY"}:
+                                    ok_edges.append((tn, eq_lab))
+                                if set(exp) - {y[1]} == {b"OKAY"}:
+                                    ok_edges.append((tn, ne_lab))
     r = g.reach([sn], avoid=barrier, exc=False, edge_filter=lambda s, d, l: not any(s is tn and l == lab for tn, lab in ok_edges))
     R.check((barrier or ok_edges) and g.exit not in r, "S&W", fl.qualname + "|await-okay",
             "every normal path from the WRTE send to the return crosses 'the awaited command is OKAY'",
